@@ -492,7 +492,7 @@ pub fn run(tier: &str, seed: u64, replay: Option<String>) -> i32 {
         exhaustive: true,
         extra,
         assumptions: vec![
-            "a link to the nil id or to an id of another collection is a link to a missing element".into(),
+            "a link to the nil id or to an id of another collection is a link to a missing element, unless an element of the target collection owns that id (closed variants give the nil id to an element)".into(),
             "bridge lengths equal to 0 are skipped (-0.0 is neither clearly negative nor clearly not)".into(),
             "the indicator-warnings comparison is skipped for a model whose indicator computation fails (judged by C14)".into(),
         ],
